@@ -13,6 +13,8 @@
 mod common;
 mod c02;
 mod c02live;
+mod c02h3;
+mod h3cli;
 mod c03;
 mod c04;
 mod c05;
@@ -99,6 +101,7 @@ fn main() {
         "c07socks" => c07socks::run(&mut ctx),
         "c09" => c09::run(&mut ctx),
         "c10" | "c01" => c10::run(&mut ctx),
+        "c02h3" => c02h3::run(&mut ctx),
         "c14est" => c10::run_establish(&mut ctx),
         "c14live" => c14live::run(&mut ctx),
         "c11" => c11::run(&mut ctx),
